@@ -1265,9 +1265,10 @@ fn tyvar_of_iface_method(
     if let Some(actual_impl_ty) = actual_impl_ty
         && let Some(desired_impl_ty) = actual_impl_ty.single()
         && let Some(imp) = ctx.get_iface_impl_for_type(&desired_impl_ty.key(), iface_def)
+        // the implementation may list its methods in another order than the interface
+        && let Some(f) = imp.get_method_by_name(&iface_def.methods[method].name.v)
     {
         let subst = get_substitution_of_typ(ctx, &imp.typ, &actual_impl_ty);
-        let f = &imp.methods[method];
         return TypeVar::from_node(ctx, f.name.node())
             .subst(&subst)
             .instantiate(ctx, polyvar_scope, node);
